@@ -5,7 +5,7 @@ func init() {
 		ruleT1, ruleT2, ruleT3)
 	register("C06", "", ruleT7, ruleT10Expr)
 	register("C12", "", ruleT10Layout)
-	register("C07", "", ruleT11, ruleE7)
+	register("C07", "", ruleT11, ruleE7, ruleP2, ruleP2g, ruleP2b, ruleP2c)
 	register("C08", "", ruleT8, ruleP4)
 	register("C09", "", ruleE9, ruleSymSort, ruleF4, ruleBoundedCopy)
 	register("C10", "", ruleE1, ruleE2)
